@@ -106,7 +106,31 @@ fn c01_sc(r: &mut Rng, thorough: bool, near_wrap: bool, small: bool) -> AScenari
 fn c01_gen_mixed(seed: u64, run: u64, thorough: bool) -> Plan {
     let mut r = Rng::keyed(&[seed, run, 0xc01]);
     let sc = c01_sc(&mut r, thorough, false, false);
-    world_a_general("C01", "a_mixed", seed, run, &sc, false)
+    let mut plan = world_a_general("C01", "a_mixed", seed, run, &sc, false);
+    if run >= 9900 {
+        // (runs added later) one or two packets of 63..257 fragments - fragment counts next to
+        // multiples of 64 - early in the run, in a resend mode, with room for them at the peer
+        let mut rb = Rng::keyed(&[seed, run, 0xc01b]);
+        let l2 = word_boundary_lengths();
+        for k in 0..rb.range(1, 2) {
+            let len = *rb.pick(&l2[..10]);
+            for i in 0..2 {
+                if let EndpointKind::Hc { spec, .. } = &mut plan.endpoints[i].kind {
+                    if i == 0 {
+                        spec.tx_alloc_limit = spec.tx_alloc_limit.max(len as u64 + 4 * FRAG);
+                        spec.tx_bandwidth_limit = spec.tx_bandwidth_limit.max(500_000);
+                    } else {
+                        spec.rx_alloc_limit = spec.rx_alloc_limit.max(len as u64 + 4 * FRAG);
+                    }
+                }
+            }
+            let t = rb.below(300_000);
+            let tag = 900_000 + k as u32;
+            plan.push(t, 0x4000_0000 + tag, Op::Send { ep: 0, to: None, ch: rb.below(2) as u8, mode: *rb.pick(&[MODE_RELIABLE, MODE_PERSISTENT]), len, tag });
+        }
+        plan.sort();
+    }
+    plan
 }
 fn c01_gen_wrap(seed: u64, run: u64, thorough: bool) -> Plan {
     let mut r = Rng::keyed(&[seed, run, 0xc01]);
@@ -331,7 +355,7 @@ pub fn c01() -> CheckDef {
         ],
         panic_is_violation: no_panics,
         hang_is_violation: false,
-        quick_runs: 9000,
+        quick_runs: 10_400,
         thorough_runs: 150_000,
         rule: "one case = one simulated run (plan generated from (seed, run index); family = run index mod weights); distinct = distinct run digest (hash of every API call, wire datagram, event and probe); non-trivial = at least 10 packets delivered to an application",
         real_code: REAL_A,
@@ -797,6 +821,9 @@ fn c04_plan(scenario: &str, seed: u64, run: u64, thorough: bool, rewrite: bool) 
     let swept: u32 = if slot % 40 == 39 {
         // occasionally the maximum: a full megabyte (691 fragments), or a random large size
         if r.chance(0.5) { 1_000_000 } else { r.range(70_000, 1_000_000) as u32 }
+    } else if run >= 2000 {
+        let l2 = word_boundary_lengths();
+        l2[slot % l2.len()]
     } else {
         lens[slot % lens.len()]
     };
@@ -895,7 +922,14 @@ fn c04_gen_b(seed: u64, run: u64, thorough: bool) -> Plan {
     let mut plan = b_transport("C04", "b_lengths", seed, run, thorough, true, false, true);
     let lens = boundary_lengths();
     let slot = (run / 3) as usize;
-    let swept = if slot % 40 == 39 { 1_000_000 } else { lens[slot % lens.len()] };
+    let swept = if slot % 40 == 39 {
+        1_000_000
+    } else if run >= 2000 {
+        let l2 = word_boundary_lengths();
+        l2[slot % l2.len()]
+    } else {
+        lens[slot % lens.len()]
+    };
     // the swept packet on every connection, in both directions, inside the fault phase
     let mut r = Rng::keyed(&[seed, run, 0xb04]);
     let heal = plan.timeline.iter().find(|t| matches!(&t.op, Op::Mark { name } if name == "heal")).map(|t| t.t_us).unwrap_or(5_000_000);
@@ -1068,7 +1102,7 @@ pub fn c04() -> CheckDef {
             Family { name: "a_max_packet", world: "A", weight: 1, gen: c04_gen_max, oracles: c04_oracles, adversary: None, keep_workload: true, custom: None,
                 what: "one Reliable or Persistent packet of the largest size there is (65536 fragments, 94.9 MB, or up to one fragment less) on a clean fast link, between two small packets (one run in 601: three per quick tier)" },
             Family { name: "a_lengths", world: "A", weight: 200, gen: c04_gen_lengths, oracles: c04_oracles, adversary: None, keep_workload: false, custom: None,
-                what: "payload length swept over {0,1,2,11..13,63..65,255..257, k*1448-2..k*1448+2 for k=1..8,16,45, 1 MB} by run index; fragments permuted, duplicated, partially lost and resent, interleaved with other packets, flush budgets that cut packets; then a clean link until everything Reliable has arrived" },
+                what: "payload length swept over {0,1,2,11..13,63..65,255..257, k*1448-2..k*1448+2 for k=1..8,16,45, 1 MB; in the runs from index 2000 on: 63/64/65, 127/128/129, 191/192/193, 255/256/257 fragments} by run index; fragments permuted, duplicated, partially lost and resent, interleaved with other packets, flush budgets that cut packets; then a clean link until everything Reliable has arrived" },
             Family { name: "b_lengths", world: "B", weight: 200, gen: c04_gen_b, oracles: c04_oracles_b, adversary: None, keep_workload: false, custom: None,
                 what: "the same length sweep through real Client/Server (both directions, several clients), bounded by the configured max_packet_size / max_receive_alloc; in a quarter of the runs the last swept packet is followed at once by a graceful disconnect() and must still arrive whole before the peer sees Disconnect" },
             Family { name: "a_window_cut", world: "A", weight: 60, gen: c04_gen_window_cut, oracles: c04_oracles_window_cut, adversary: None, keep_workload: false, custom: None,
@@ -1078,7 +1112,7 @@ pub fn c04() -> CheckDef {
         ],
         panic_is_violation: panics_in_frame_building,
         hang_is_violation: false,
-        quick_runs: 2000,
+        quick_runs: 2600,
         thorough_runs: 40_000,
         rule: "one case = one simulated run; the swept length is (run index / 3) mod |boundary set|; distinct = distinct run digest; non-trivial = at least 10 packets delivered",
         real_code: REAL_A,
